@@ -120,13 +120,18 @@ def _module_info(tree):
     return funcs, consts, classes
 
 
-def _func_scores(ref_fns, cur_fns, V, N, stable):
+def _func_scores(ref_fns, cur_fns, V, N, stable, ref_uses=None, cur_uses=None):
     scores = {}
     for o in V:
         for n in N:
             fo, fn = ref_fns[o], cur_fns[n]
             if _nparams(fo) != _nparams(fn):
                 continue
+            if ref_uses is not None:
+                # a rename keeps the call sites: the new name is used about as often as the old one was
+                a, b = ref_uses.get(o, 0), cur_uses.get(n, 0)
+                if (a == 0) != (b == 0) or (a and b and not (0.5 <= a / float(b) <= 2.0)):
+                    continue
             s = 0.45 * _ratio(_tokens(fo), _tokens(fn)) + 0.35 * _jacc(_names_used(fo) & stable, _names_used(fn) & stable) \
                 + 0.20 * _ratio(o, n)
             scores[(o, n)] = s
@@ -178,6 +183,16 @@ def compute(cur_trees, pkg="shexer"):
             for c in classes.values():
                 s |= set(c.methods) | set(c.attrs)
         return s
+    def uses(trees):
+        c = Counter()
+        for t in trees.values():
+            for n in ast.walk(t):
+                if isinstance(n, ast.Attribute):
+                    c[n.attr] += 1
+                elif isinstance(n, ast.Name) and isinstance(n.ctx, ast.Load):
+                    c[n.id] += 1
+        return c
+    ref_uses, cur_uses = uses(ref_trees), uses(cur_trees)
     ref_names, cur_names = all_names(ref_info), all_names(cur_info)
     rn.ref_names = ref_names
     stable = {x for x in ref_names & cur_names} | {"." + x for x in ref_names & cur_names}
@@ -200,14 +215,19 @@ def compute(cur_trees, pkg="shexer"):
             mmap = {}
             Vm, Nm = [v for v in V if v in rci.methods], [n for n in N if n in cci.methods]
             if Vm and Nm:
-                sc = _func_scores({k: v[0] for k, v in rci.methods.items()}, {k: v[0] for k, v in cci.methods.items()}, Vm, Nm, stable)
+                sc = _func_scores({k: v[0] for k, v in rci.methods.items()}, {k: v[0] for k, v in cci.methods.items()}, Vm, Nm, stable,
+                                  ref_uses, cur_uses)
                 mmap.update(_greedy(sc, THRESHOLD_FUNC))
             per_class[(m, cname)] = (rci, cci, V, N, mmap)
     # methods first (their names are the context of the attribute features), attributes second
     for (m, cname), (rci, cci, V, N, mmap) in per_class.items():
         back = dict(mmap)                                   # new method name -> old
-        Va = [v for v in V if v not in rci.methods]
-        Na = [n for n in N if n not in cci.methods]
+        # fields are defined by assignment: a member the class only *uses* (inherited method or field) is renamed where it is
+        # defined, and adopted here afterwards - pairing uses would turn an extracted helper into a "rename" of whatever the
+        # class stopped calling
+        stored = lambda ci, name: any(k[1] == "Store" for k in ci.attrs[name])
+        Va = [v for v in V if v not in rci.methods and stored(rci, v)]
+        Na = [n for n in N if n not in cci.methods and stored(cci, n)]
         if Va and Na:
             sc = {}
             for o in Va:
@@ -258,7 +278,7 @@ def compute(cur_trees, pkg="shexer"):
         tmap = {}
         V, N = set(rf) - set(cf), set(cf) - set(rf)
         if V and N:
-            tmap.update(_greedy(_func_scores(rf, cf, V, N, stable), THRESHOLD_FUNC))
+            tmap.update(_greedy(_func_scores(rf, cf, V, N, stable, ref_uses, cur_uses), THRESHOLD_FUNC))
         V, N = set(rc) - set(cc) - set(cf) - set(ccls), set(cc) - set(rc) - set(rf) - set(rcls)
         if V and N:
             sc = {}
